@@ -61,6 +61,9 @@ func (m *PubackMessage) Decode(src []byte) (int, error) {
 		return total, err
 	}
 
+	// The packet ends where its remaining length says, not where src ends.
+	src = src[:total+int(m.remlen)]
+
 	if len(src[total:]) < 2 {
 		return total, fmt.Errorf("puback/Decode: Insufficient buffer size. Expecting %d, got %d", 2, len(src[total:]))
 	}
